@@ -451,7 +451,11 @@ func raceFrameStr(f *raceFrame) string {
 	if f == nil {
 		return "?"
 	}
-	return fmt.Sprintf("%s:%d(%s)", strings.TrimPrefix(f.File, "/repo/"), f.Line, raceShort(raceCanon(f.Func)))
+	file := f.File
+	if i := strings.Index(file, "/internal/"); i >= 0 {
+		file = file[i+1:]
+	}
+	return fmt.Sprintf("%s:%d(%s)", file, f.Line, raceShort(raceCanon(f.Func)))
 }
 
 // raceClassify: goroutine kind and site of one stack.
